@@ -170,6 +170,18 @@ def make_case(rng):
         case['qclass'][str(qid)] = 'same-length-pair'
         case['special'].append(qid)
         qid += 1
+    if rng.random() < 0.4:
+        # a contig shorter than some partially aligned molecule of the file, with its own partially aligned molecule
+        rid = max(m[0] for m in case['refs']) + 1
+        spos = gen.gen_ref(rng, rng.randint(25, 40), mean=9000, mn=2000, repeats=False)
+        case['refs'].append([rid, round(spos[-1] + 500, 1), spos])
+        qid = max(m[0] for m in case['queries']) + 1
+        for src in (spos, max(case['refs'], key=lambda m: m[1])[2]):
+            pos, length = gen.query_from_ref(rng, src, 'partial', case['refs'])
+            case['queries'].append([qid, length, pos])
+            case['qclass'][str(qid)] = 'partial-on-short-or-long-contig'
+            case['special'].append(qid)
+            qid += 1
     rng.shuffle(case['queries'])
     case['mm_seed'] = rng.randint(0, 10 ** 9)
     return case
